@@ -64,7 +64,7 @@ def lockstep_compare(runs):
         else:
             d = lockstep.compare_lines(il, o, cut) if k != "block" else lockstep.compare(c, r, o)
         if d:
-            div.append({"kind": k, "case": strip(c), "divergence": d})
+            div.append({"kind": k, "case": strip(c), "schedule": c.get("schedule", [])[:len(r["trace"])], "divergence": d})
     harness = [{"kind": k, "case": strip(c), "verdict": r["verdict"], "error": (r.get("error") or "")[-800:]}
                for k, c, r in runs if r["verdict"] not in ("done", "deadlock", "quiescent", "steplimit")]
     return len(ok), div, harness
